@@ -80,7 +80,13 @@ def convert_node_skeleton(syn):
             state.update({fn_: ("sym", "old." + fn_) for fn_ in fields_all})
             state["must_assign_to"] = copy.deepcopy(target)
             state["is_last_must_be_ret"] = ret
-            scope = Scope(None, {"ast": ("sym", "ast"), "imp": ("sym", "imp"), "ctx": ("sym", "ctx"), "state": state})
+            # parameters by position and type, whatever they are called
+            pnames = [i_.get("pat", {}).get("name") for i_ in cn["sig"]["inputs"]]
+            sname = next((i_["pat"]["name"] for i_ in cn["sig"]["inputs"] if i_.get("pat", {}).get("k") == "pident" and "State" in str(i_.get("ty", ""))), None)
+            if sname is None or None in pnames:
+                raise AnchorError("convert_node: no State parameter")
+            scope = Scope(None, {pn_: ("sym", pn_) for pn_ in pnames})
+            scope[sname] = state
             for s_ in stmts[:k]:
                 if s_.get("k") == "local" and s_.get("init") is not None:
                     if not ev.bind(s_["pat"], ev.ev(s_["init"], scope), scope):
@@ -89,9 +95,21 @@ def convert_node_skeleton(syn):
                     ev.ev(s_["e"], scope)
                 else:
                     raise AnchorError("convert_node: unexpected statement in front of the conversion")
-            under = copy.deepcopy(scope.get("state"))
+            # the state the children are converted under: the one most conversions in the big statement hand on
+            from collections import Counter as _Ctr
+            handed = _Ctr()
+            for c_ in walk(big["init"]):
+                if c_.get("k") == "call" and c_["f"].get("k") == "path" and c_["f"]["p"].split("::")[-1].startswith("convert_"):
+                    for a_ in c_["args"]:
+                        a_ = strip(a_)
+                        if a_.get("k") == "path" and isinstance(scope.get(a_["p"]), dict) and scope.get(a_["p"]).get("__struct__") == "State":
+                            handed[a_["p"]] += 1
+            if not handed:
+                raise AnchorError("convert_node: no conversion hands a state on")
+            uname = handed.most_common(1)[0][0]
+            under = copy.deepcopy(scope.get(uname))
             unreset = sorted(n_ for n_, v_ in scope.items() if isinstance(v_, dict) and v_.get("__struct__") == "State" and v_ is not under and
-                             v_.get("must_assign_to") == target and v_.get("is_last_must_be_ret") is ret and n_ != "state") if target is not None and ret else None
+                             v_.get("must_assign_to") == target and v_.get("is_last_must_be_ret") is ret and n_ != uname) if target is not None and ret else None
             probe = dict(big)
             probe["init"] = {"k": "__value__", "v": ("sym", "CORE")}
             r = ev.ev({"k": "block", "stmts": [probe] + stmts[k + 1:]}, scope)
@@ -188,7 +206,7 @@ def _operators(chk, facts):
         ok = r["eaten"] == [tok]
         chk.ob("R-C01-1", key + ":eat", ok, f"`{sp}`: the parser consumes Token::{tok}" if ok else f"the arm for Token::{tok} eats {r['eaten']}", loc)
         if kind == "binary":
-            ok = r["fields"].get("left") == "arithmetic" and r["fields"].get("right") == "right" and set(r["fields"]) == {"left", "right"}
+            ok = r["roles"] == {"left": "before", "right": "after"}       # left: parsed in front of the operator, right: behind it
             chk.ob("R-C01-1", key + ":parse-order", ok, f"`a {sp} b` -> Node::{node} {{ left: a, right: b }}" if ok else
                    f"the parser builds Node::{node} with {r['fields']}: the operands of `{sp}` are swapped or replaced", loc)
         else:
@@ -343,6 +361,49 @@ def _convert_census(chk, facts):
 
 
 # ------------------------------------------------------------------------------------------------------------------------
+
+def walker_leaf_table(syn):
+    """{Core variant: {"ret": how append_ret treats a node of that variant, "assign": how append_assign does}} with the treatment one of
+    "skip" (returned as it is), "wrap" (Return { expr: node } / VarDef { .., expr: Some(node) }) or "recurse" (the same variant with
+    something inside replaced) - obtained by folding both walkers, with whatever predicates / methods they call, over one symbolic node
+    of every variant of `Core` (rules/smalleval.py)."""
+    import copy
+    from .smalleval import SmallEval, NoEval
+    ar = syn.one_fn("append_ret", mod="generate::convert")
+    aa = syn.one_fn("append_assign", mod="generate::convert")
+    variants = syn.enum_variants("generate::ast::node::Core")
+    local = {f_["name"]: f_ for f_ in syn.fns if f_["mod"] == ar["mod"] and f_.get("impl_of") is None and f_.get("body")}
+    meths = {f_["name"]: f_ for f_ in syn.fns if f_["mod"] == ar["mod"] and f_.get("impl_of") and not f_.get("impl_trait") and f_.get("body")
+             and f_["sig"]["inputs"] and f_["sig"]["inputs"][0].get("pat", {}).get("name") == "self"}
+    ev = SmallEval(local_fns=local, methods={"to_py": lambda recv, *a: ("sym", "py")})
+    ev.local_methods = meths
+    out = {}
+    for v, node in variants.items():
+        fields = node.get("fields") or []
+        val = {"__struct__": v}
+        for fld in fields:
+            fty = str(fld[1]).replace(" ", "")
+            val[fld[0]] = ("list", [("sym", f"{v}.{fld[0]}.0"), ("sym", f"{v}.{fld[0]}.1")]) if fty.startswith("Vec<") else ("sym", f"{v}.{fld[0]}")
+        row = {}
+        for name, fn, args in (("ret", ar, []), ("assign", aa, [("sym", "target"), ("Some", ("sym", "tname")), ("sym", "imp")])):
+            inp = copy.deepcopy(val) if fields else f"Core::{v}"
+            try:
+                r = ev.call(fn, [inp] + args)
+            except NoEval as e:
+                row[name] = f"not foldable ({e})"
+                continue
+            if r == inp or (isinstance(inp, str) and r in (inp, v)):
+                row[name] = "skip"
+            elif isinstance(r, dict) and r.get("__struct__") == "Return" and r.get("expr") == inp:
+                row[name] = "wrap"
+            elif isinstance(r, dict) and r.get("__struct__") == "VarDef" and r.get("expr") in (("Some", inp), inp):
+                row[name] = "wrap"
+            else:
+                row[name] = "recurse" if isinstance(r, dict) and r.get("__struct__") == v else f"something else ({str(r)[:60]})"
+        out[v] = row
+    return out
+
+
 def _walker_table(fn):
     """Core variant -> {field: 'recurse' | 'clone'} for the explicit arms; plus the guard leaf and the default wrapper"""
     ms = [n for n in walk(fn["body"]) if n.get("k") == "match"]
@@ -419,6 +480,10 @@ def _siblings(chk, facts):
                 for x in v:
                     wrapped(x, kind, out)
         ev_r, ev_a = SmallEval(local_fns=local), SmallEval(local_fns=local)
+        # predicates may be written as private methods of `Core` (`core.skip_return()`) instead of free functions
+        meths_w = {f_["name"]: f_ for f_ in syn.fns if f_["mod"] == ar["mod"] and f_.get("impl_of") and not f_.get("impl_trait") and f_.get("body")
+                   and f_["sig"]["inputs"] and f_["sig"]["inputs"][0].get("pat", {}).get("name") == "self"}
+        ev_r.local_methods, ev_a.local_methods = dict(meths_w), dict(meths_w)
         fold_bad = None
         try:
             for label, t_ in trees.items():
@@ -443,19 +508,23 @@ def _siblings(chk, facts):
             chk.ob("R-C01-4", f"variant:{v}", ok, f"{v}: both walkers descend through {sorted(k for k, x in fr.items() if x == 'recurse')}" if ok else
                    f"{v}: append_ret descends through {fr}, append_assign through {fa}: a value in that position is returned but not assigned (or the reverse)", loc)
         chk.floor("R-C01-4", len(set(tr) & set(ta)), 7, "compound variants handled by both walkers")
-        ok = lr == "skip_return(core)" and la == "skip_assign(expr)" and dr == "Core::Return" and da == "Core::VarDef"
-        chk.ob("R-C01-4", "leaves-and-default", ok, "leaves are skip_return / skip_assign; everything else is wrapped in Return / VarDef" if ok else
-               f"leaf guards ({lr}, {la}) or default wrappers ({dr}, {da}) changed", loc)
-        sa = syn.one_fn("skip_assign", mod="generate::convert")
-        sr = syn.one_fn("skip_return", mod="generate::convert")
-        s1 = src(sa["body"]).replace(" ", "")
-        s2 = src(sr["body"]).replace(" ", "")
-        def variants_of(s):
-            return set(re.findall(r"Core::(\w+)", s))
-        ok = "skip_return(core)||" in s1 and variants_of(s2) == {"Return", "Raise"} and variants_of(s1) == {"VarDef", "Assign"}
-        chk.ob("R-C01-4", "skip-sets", ok, "skip_return = {Return, Raise}; skip_assign = skip_return + {VarDef, Assign}" if ok else
-               f"skip_return = {sorted(variants_of(s2))}, skip_assign = {'skip_return + ' if 'skip_return(core)||' in s1 else ''}{sorted(variants_of(s1))}: "
-               "a statement that already transfers control or binds is wrapped again (or a value is no longer returned/assigned)", facts.loc_of(sa))
+        # what each walker does with a node of every Core variant (folded, see walker_leaf_table): the nodes that append_ret leaves alone are
+        # the ones that transfer control themselves (Return, Raise) and the statements, which have no value; append_assign leaves alone the
+        # same nodes and the two that bind already; the compound nodes are descended by both; everything else is wrapped by both
+        leaf = walker_leaf_table(syn)
+        odd = {v_: r_ for v_, r_ in leaf.items() if r_["ret"] not in ("skip", "wrap", "recurse") or r_["assign"] not in ("skip", "wrap", "recurse")}
+        skip_r = {v_ for v_, r_ in leaf.items() if r_["ret"] == "skip"}
+        skip_a = {v_ for v_, r_ in leaf.items() if r_["assign"] == "skip"}
+        rec_r = {v_ for v_, r_ in leaf.items() if r_["ret"] == "recurse"}
+        rec_a = {v_ for v_, r_ in leaf.items() if r_["assign"] == "recurse"}
+        ok = not odd and rec_r == rec_a and len(leaf) >= 70
+        chk.ob("R-C01-4", "leaves-and-default", ok, f"every one of the {len(leaf)} Core variants is left alone, descended or wrapped (Return / VarDef) by each walker; both descend the same {len(rec_r)} compound variants" if ok else
+               f"the walkers treat some variant in another way: {dict(list(odd.items())[:2]) or sorted(rec_r ^ rec_a)}", loc)
+        STATEMENTS = {"If", "While", "For", "With", "WithAs", "VarDef", "Assign", "FunDef", "FunDefOp", "ClassDef", "Import", "Break", "Continue", "Pass"}
+        ok = skip_r == {"Return", "Raise"} | STATEMENTS and skip_a == skip_r | {"VarDef", "Assign"}
+        chk.ob("R-C01-4", "skip-sets", ok, "append_ret leaves alone {Return, Raise} and the statements; append_assign the same and {VarDef, Assign}" if ok else
+               f"append_ret leaves alone {sorted(skip_r)}, append_assign {sorted(skip_a)}: "
+               "a statement that already transfers control or binds is wrapped again (or a value is no longer returned/assigned)", loc)
         # the hooks in convert_node: assign first, then return, both on the converted node
         from .smalleval import NoEval as _NoEvalSk
         try:
